@@ -21,9 +21,12 @@ pub enum Kind {
     BadTxSignature,
     GoldenTicketTarget,
     Timestamp,
+    /// a payment from the shared history included again: its inputs were spent below the fork
+    /// point, so nothing the candidate chain or the restored chain does can make them spendable
+    ReplayedSpend,
 }
 
-pub const KINDS: [Kind; 7] = [
+pub const KINDS: [Kind; 8] = [
     Kind::BadSignature,
     Kind::BurnFee,
     Kind::Unpaid,
@@ -31,6 +34,7 @@ pub const KINDS: [Kind; 7] = [
     Kind::Difficulty,
     Kind::BadTxSignature,
     Kind::Timestamp,
+    Kind::ReplayedSpend,
 ];
 
 /// re-derive merkle root (when txs changed), pre-hash, signature and hash with the creator's key
@@ -47,7 +51,20 @@ pub fn reseal(block: &mut Block, creator: &Actor, txs_changed: bool) {
 
 /// make `block` invalid in the given way; returns false when the edit does not apply
 pub fn corrupt(block: &mut Block, kind: Kind, creator: &Actor, rng: &mut Rng) -> bool {
+    corrupt_with(block, kind, creator, rng, None)
+}
+
+/// `donor`: a payment taken from a block below the fork point (for Kind::ReplayedSpend)
+pub fn corrupt_with(block: &mut Block, kind: Kind, creator: &Actor, rng: &mut Rng, donor: Option<&saito_core::core::consensus::transaction::Transaction>) -> bool {
     match kind {
+        Kind::ReplayedSpend => match donor {
+            Some(tx) => {
+                let at = block.transactions.iter().position(|t| t.transaction_type != saito_core::core::consensus::transaction::TransactionType::Normal).unwrap_or(block.transactions.len());
+                block.transactions.insert(at, tx.clone());
+                reseal(block, creator, true);
+            }
+            None => return false,
+        },
         Kind::BadSignature => {
             block.signature[7] ^= 0x20;
             let _ = block.generate();
@@ -182,7 +199,8 @@ pub async fn run_scenario(sc: &Scenario, params: &Params, rng: &mut Rng, rep: &m
     let candidate = honest_chain(&mut b, rng, fork, sc.candidate, 2, sut_actor).await;
     // corrupt the offending block and re-point everything built on it
     let mut cand_blocks: Vec<Block> = candidate.iter().map(|h| b.store.get(h).block.clone()).collect();
-    if !corrupt(&mut cand_blocks[sc.bad_pos - 1], sc.kind, &creator, rng) {
+    let donor = trunk.iter().flat_map(|h| b.store.get(h).block.transactions.iter()).find(|t| t.transaction_type == saito_core::core::consensus::transaction::TransactionType::Normal && t.from.iter().any(|s| s.amount > 0)).cloned();
+    if !corrupt_with(&mut cand_blocks[sc.bad_pos - 1], sc.kind, &creator, rng, donor.as_ref()) {
         rep.count("cells_not_applicable");
         return;
     }
